@@ -20,7 +20,13 @@ import (
 
 	"github.com/elastos/Elastos.ELA/common"
 	"github.com/elastos/Elastos.ELA/common/config"
+	"github.com/elastos/Elastos.ELA/core/contract/program"
+	"github.com/elastos/Elastos.ELA/core/transaction"
 	"github.com/elastos/Elastos.ELA/core/types"
+	ctypes "github.com/elastos/Elastos.ELA/core/types/common"
+	"github.com/elastos/Elastos.ELA/core/types/functions"
+	"github.com/elastos/Elastos.ELA/core/types/interfaces"
+	"github.com/elastos/Elastos.ELA/core/types/payload"
 	"github.com/elastos/Elastos.ELA/database"
 	"github.com/elastos/Elastos.ELA/dpos/state"
 	"github.com/elastos/Elastos.ELA/zzverif/vrand"
@@ -28,6 +34,7 @@ import (
 
 	"verif/evid"
 	"verif/hx"
+	"verif/keys"
 )
 
 type scen struct {
@@ -37,6 +44,7 @@ type scen struct {
 	Env     string `json:"env"`     // treap | p2p | treap+p2p
 	Bound   int    `json:"bound"`   // preemption bound (-1 unbounded)
 	EnvSeed int64  `json:"envseed"` // what the clock-seeding environment thread seeds with
+	V2      []int  `json:"v2"`      // block variants for DPoS v2 arbiter-order evaluations (getRandomDposV2Producers)
 }
 
 func prevBlock(variant int) *types.Block {
@@ -67,6 +75,61 @@ func reference(p *config.Configuration, b *types.Block, voted int) (int, bool) {
 	return rand.New(rand.NewSource(seed)).Intn(c), true
 }
 
+// v2 fixture: a State with six active DPoS v2 producers and parameters under which three seats
+// are drawn at random (NormalArbitratorsCount 2 + one CRC arbiter), so getRandomDposV2Producers
+// enters its selection loop.
+var (
+	v2Params *config.Configuration
+	v2State  *state.State
+	v2Ref    = map[int]string{}
+)
+
+func pk(i byte) []byte { return keys.Pub(int(i)) }
+
+func setupV2() {
+	functions.GetTransactionByTxType = transaction.GetTransaction
+	functions.GetTransactionByBytes = transaction.GetTransactionByBytes
+	functions.CreateTransaction = transaction.CreateTransaction
+	functions.GetTransactionParameters = transaction.GetTransactionparameters
+	p := config.GetDefaultParams()
+	p.DPoSV2StartHeight = 0
+	p.DPoSV2EffectiveVotes = -1
+	p.DPoSConfiguration.NormalArbitratorsCount = 2
+	p.DPoSConfiguration.CRCArbiters = p.DPoSConfiguration.CRCArbiters[:1]
+	v2Params = p
+	st := state.NewState(p, nil, nil, nil, func() bool { return false }, nil, nil, nil, nil, nil, nil, nil)
+	var txs []interfaces.Transaction
+	for i := byte(1); i <= 6; i++ {
+		info := &payload.ProducerInfo{OwnerKey: pk(i), NodePublicKey: pk(i), NickName: fmt.Sprintf("p%d", i), Url: "u", Location: 1, NetAddress: "a", StakeUntil: 1000000}
+		txs = append(txs, functions.CreateTransaction(ctypes.TxVersion09, ctypes.RegisterProducer, payload.ProducerInfoDposV2Version, info,
+			[]*ctypes.Attribute{}, []*ctypes.Input{}, []*ctypes.Output{}, 0, []*program.Program{}))
+	}
+	st.ProcessBlock(&types.Block{Header: ctypes.Header{Height: 50}, Transactions: txs}, nil, 0)
+	for h := uint32(51); h < 60; h++ {
+		st.ProcessBlock(&types.Block{Header: ctypes.Header{Height: h}}, nil, 0)
+	}
+	if n := len(st.GetDposV2ActiveProducers()); n != 6 {
+		evid.Fatalf("harness: expected 6 active DPoS v2 producers, have %d", n)
+	}
+	v2State = st
+}
+
+// v2Reference: the order the real function yields when nothing else runs (single-threaded
+// reference, computed once per previous block outside the scheduler).
+func v2Reference(bv int) string {
+	if r, ok := v2Ref[bv]; ok {
+		return r
+	}
+	vrand.Reset(42)
+	out, err := state.VerifRandomDposV2Producers(v2State, v2Params, prevBlock(bv), prevBlock(bv).Height+1, 0)
+	if err != nil || len(out) != 6 {
+		evid.Fatalf("harness: v2 reference for block %d: %v (%d keys)", bv, err, len(out))
+	}
+	// it must really depend on the block (non-vacuity is checked by the caller over the menu)
+	v2Ref[bv] = strings.Join(out, ",")
+	return v2Ref[bv]
+}
+
 func buildScenario(p *config.Configuration, s scen) *vsched.Scenario {
 	return &vsched.Scenario{
 		Name:  s.Name,
@@ -83,6 +146,16 @@ func buildScenario(p *config.Configuration, s scen) *vsched.Scenario {
 				bodies = append(bodies, func() {
 					results[i], errs[i] = state.VerifCandidateIndexAtRandom(p, prevBlock(bv), prevBlock(bv).Height+1, 0, s.Voted)
 					vsched.Log("result=%d err=%v", results[i], errs[i])
+				})
+			}
+			v2res := make([]string, len(s.V2))
+			for i, bv := range s.V2 {
+				i, bv := i, bv
+				names = append(names, fmt.Sprintf("consensusV2_%d", i))
+				bodies = append(bodies, func() {
+					out, err := state.VerifRandomDposV2Producers(v2State, v2Params, prevBlock(bv), prevBlock(bv).Height+1, 0)
+					v2res[i] = strings.Join(out, ",")
+					vsched.Log("v2 order err=%v", err)
 				})
 			}
 			if strings.Contains(s.Env, "treap") {
@@ -112,10 +185,21 @@ func buildScenario(p *config.Configuration, s scen) *vsched.Scenario {
 							What: fmt.Sprintf("candidate index %d for a fixed previous block differs from the chain-data-only value %d under this interleaving with other users of the process-global math/rand", results[i], want)}
 					}
 				}
+				for i, bv := range s.V2 {
+					out = append(out, fmt.Sprintf("v2:%x", len(v2res[i])))
+					if v2res[i] != v2Reference(bv) && fail == nil {
+						fail = &vsched.Fail{Signature: "C24|arbiter-order-depends-on-schedule|getRandomDposV2Producers",
+							What: "the DPoS v2 arbiter order for a fixed previous block differs from the order the same function yields when nothing else runs, under this interleaving"}
+					}
+				}
 				if fail == nil {
 					for _, ev := range x.Trace {
 						if strings.HasPrefix(ev, "consensus") && strings.Contains(ev, ":global-rand.") {
-							fail = &vsched.Fail{Signature: "C24|consensus-draws-from-process-global-source|getCandidateIndexAtRandom",
+							which := "getCandidateIndexAtRandom"
+							if strings.HasPrefix(ev, "consensusV2") {
+								which = "getRandomDposV2Producers"
+							}
+							fail = &vsched.Fail{Signature: "C24|consensus-draws-from-process-global-source|" + which,
 								What: "consensus path uses the process-global math/rand source: " + ev}
 							break
 						}
@@ -144,12 +228,22 @@ func scenarios(r *evid.Run) []scen {
 			out = append(out, scen{Name: fmt.Sprintf("2c-%s-b%d", env, b), Blocks: []int{1, 2}, Voted: 60, Env: env, Bound: b, EnvSeed: 5})
 		}
 	}
-	// unbounded where the space is small
-	out = append(out, scen{Name: "1c-treap+p2p-unbounded", Blocks: []int{3}, Voted: 60, Env: "treap+p2p", Bound: -1, EnvSeed: 7})
-	out = append(out, scen{Name: "2c-p2p-unbounded", Blocks: []int{3, 4}, Voted: 60, Env: "p2p", Bound: -1, EnvSeed: 7})
+	// DPoS v2 arbiter order (getRandomDposV2Producers) against the environment and against a
+	// concurrent candidate-index evaluation (shared generator objects are interleaved too)
+	for _, b := range []int{0, 1, 2} {
+		out = append(out, scen{Name: fmt.Sprintf("v2-treap+p2p-b%d", b), V2: []int{1}, Voted: 60, Env: "treap+p2p", Bound: b, EnvSeed: 11})
+		out = append(out, scen{Name: fmt.Sprintf("v2+1c-b%d", b), V2: []int{1}, Blocks: []int{2}, Voted: 60, Env: "", Bound: b, EnvSeed: 11})
+		out = append(out, scen{Name: fmt.Sprintf("v2+v2-b%d", b), V2: []int{1, 2}, Voted: 60, Env: "", Bound: b, EnvSeed: 11})
+	}
 	if r.Thorough() {
-		for bv := 5; bv < 25; bv++ {
-			out = append(out, scen{Name: fmt.Sprintf("3c-treap+p2p-unbounded-%d", bv), Blocks: []int{bv, bv + 1, bv + 2}, Voted: 100, Env: "treap+p2p", Bound: -1, EnvSeed: int64(bv)})
+		// deeper bounds (statement points in the consensus functions make unbounded exploration
+		// infeasible; bound 3 and 4 are completed instead)
+		out = append(out, scen{Name: "1c-treap+p2p-b3", Blocks: []int{3}, Voted: 60, Env: "treap+p2p", Bound: 3, EnvSeed: 7})
+		out = append(out, scen{Name: "2c-p2p-b3", Blocks: []int{3, 4}, Voted: 60, Env: "p2p", Bound: 3, EnvSeed: 7})
+		out = append(out, scen{Name: "1c-treap-b4", Blocks: []int{3}, Voted: 60, Env: "treap", Bound: 4, EnvSeed: 7})
+		out = append(out, scen{Name: "v2+1c-b3", V2: []int{1}, Blocks: []int{2}, Voted: 60, Env: "", Bound: 3, EnvSeed: 11})
+		for bv := 5; bv < 15; bv++ {
+			out = append(out, scen{Name: fmt.Sprintf("3c-treap+p2p-b2-%d", bv), Blocks: []int{bv, bv + 1, bv + 2}, Voted: 100, Env: "treap+p2p", Bound: 2, EnvSeed: int64(bv)})
 		}
 	}
 	return out
@@ -181,10 +275,14 @@ func mathRandImporters() []string {
 func main() {
 	r := evid.Start("C24", "model_checking")
 	scr := evid.Scratch("c24")
-	defer func() { recover() }()
+
 	hx.QuietLogs(scr)
 	p := config.GetDefaultParams()
 	_ = common.Uint256{}
+	setupV2()
+	if v2Reference(1) == v2Reference(2) && v2Reference(2) == v2Reference(3) {
+		evid.Fatalf("harness: the v2 order does not depend on the previous block — selection loop not reached")
+	}
 	if r.Replay != "" {
 		var a struct {
 			Scenario scen  `json:"scenario"`
@@ -245,7 +343,7 @@ func main() {
 		"per_scenario":                  perScen,
 		"info_math_rand_importers_in_consensus_packages": info,
 		"exhaustive":                    exhaustive,
-		"rule":                          "every interleaving of the harness threads at global-math/rand points within preemption bounds 0,1,2 (and unbounded for the small scenarios); states = distinct (scenario, outcome vector) pairs, transitions = scheduling points executed",
+		"rule":                          "every interleaving of the harness threads at global-math/rand points within preemption bounds 0,1,2 (thorough: 3 and 4 on selected scenarios); states = distinct (scenario, outcome vector) pairs, transitions = scheduling points executed",
 		"samples":                       samples,
 	})
 }
